@@ -180,6 +180,11 @@ func init() {
 					continue
 				}
 				impl, tr := runTraced(nil, bc, rec, ugo.Map{}, args, false)
+				if strings.Contains(impl, "564d41626f727465644572726f72") {
+					// VMAbortedError: the 1 s watchdog fired (endless loop, or a stalled machine): not compared
+					c.Count("aborted-by-watchdog")
+					continue
+				}
 				cls := strings.SplitN(strings.TrimPrefix(impl, "out="), " ", 2)[0]
 				c.Count("outcome:" + cls)
 				key := ""
